@@ -159,10 +159,82 @@ def r04c(ctx, P):
                    "%s:%s" % (f.file, f.line))
 
 
+def r04d(ctx, P):
+    rid = "R04.d"
+    ctx.rule(rid, "GUARD (upsert/delete fold): in IndexWriter::commit the match on a queued operation has an Add arm that removes the "
+                  "id from the live-document map (tombstoning the previous version) and inserts into the new-document map, and a "
+                  "Delete arm that removes the id from both maps; both arms record a tombstone under the `Some(previous address)` test")
+    f = P.fn(N.W + "::commit")
+    if not ctx.anchor(rid, f, "IndexWriter::commit"):
+        return
+    adt = P.adts.get("searchlite_core::api::writer::PendingOp")
+    if not ctx.anchor(rid, adt, "PendingOp enum"):
+        return
+    names = [v["name"] for v in adt["variants"]]
+    sw = None
+    for b in sorted(f.reachable()):
+        t = f.blocks[b]["term"]
+        if t["k"] != "switch":
+            continue
+        l = op_local(t["on"])
+        for d in f.defs().get(l, []):
+            if d["k"] == "assign" and d["rv"]["k"] == "discr":
+                ty = f.local_ty(d["rv"]["place"]["l"])
+                if "writer::PendingOp" in ty:
+                    sw = (b, t)
+    if not ctx.anchor(rid, sw, "match on PendingOp in commit"):
+        return
+    b, t = sw
+    sl = Slice(f)
+    for v, tg in zip(t["values"], t["targets"]):
+        name = names[v]
+        region = f.dominated_region(tg)
+        calls = []
+        for rb in region:
+            tt = f.blocks[rb]["term"]
+            if tt["k"] == "call":
+                calls.append((callee_of(tt), sl_names(f, sl, tt["args"][0]) if tt["args"] else set()))
+        rm_live = any(c.endswith("HashMap::<K, V, S, A>::remove") and "live_docs" in nm for c, nm in calls)
+        ins_new = any(c.endswith("BTreeMap::<K, V, A>::insert") and "pending_new" in nm for c, nm in calls)
+        rm_new = any(c.endswith("BTreeMap::<K, V, A>::remove") and "pending_new" in nm for c, nm in calls)
+        tomb = any(c.endswith("Vec::<T, A>::push") for c, nm in calls) and any(c.endswith("::entry") and "tombstones" in nm for c, nm in calls)
+        if name == "Add":
+            ok = rm_live and ins_new and tomb
+            what = "Add: live_docs.remove=%s pending_new.insert=%s tombstone=%s" % (rm_live, ins_new, tomb)
+        else:
+            ok = rm_live and rm_new and tomb
+            what = "Delete: live_docs.remove=%s pending_new.remove=%s tombstone=%s" % (rm_live, rm_new, tomb)
+        ctx.ob(rid, "%s:commit:fold:%s" % (rid, name), ok,
+               "the %s arm of the commit fold keeps one live copy per id (%s)" % (name, what) if ok else
+               "the %s arm of the commit fold does not maintain 'one live copy per id': %s" % (name, what), Site(f, b).loc())
+
+
+def sl_names(f, sl, operand):
+    """User-variable names an operand borrows from."""
+    out = set()
+    work = [op_local(operand)]
+    seen = set()
+    while work:
+        l = work.pop()
+        if l is None or l in seen:
+            continue
+        seen.add(l)
+        if f.locals[l].get("name"):
+            out.add(f.locals[l]["name"])
+        for d in f.defs().get(l, []):
+            if d["k"] == "assign" and d["rv"]["k"] == "ref":
+                work.append(d["rv"]["place"]["l"])
+                out |= {e["f"] for e in d["rv"]["place"]["p"] if isinstance(e, dict) and "f" in e}
+            elif d["k"] == "assign" and d["rv"]["k"] == "use":
+                work.append(op_local(d["rv"]["a"]))
+    return out
+
+
 def run(ctx, progs):
     P = progs.get("default")
     r04a(ctx, P)
     r04c(ctx, P)
+    r04d(ctx, P)
     ctx.rule("R04.b", "ORDER: rollback clears the queue and truncates the log on every success path (evaluated as R02.c under C02)")
     from sa.rules import C02
     sub = type(ctx)(ctx.pid, ctx.tier)
